@@ -87,6 +87,37 @@ def run(chk):
 
     for lit in OUT_OF_DOMAIN:
         one(lit, "literal", "\r" not in lit)
+
+    # the same out-of-domain declarations inside an imported module, at a line the (short) importing file does not have: the
+    # error must still be a value that renders, and every cited line must exist in the file it is cited for
+    import shutil
+    work = common.scratch_dir("verif_c11_")
+    try:
+        nmod = 0
+        for lit in OUT_OF_DOMAIN:
+            if not lit.startswith('version: "3"\n') or "\r" in lit or "mod " in lit:
+                continue
+            decl = lit[len('version: "3"\n'):]
+            for pad in (0, 7):
+                for importer in ('version: "3"\nmod types;', 'version: "3"\nstruct Z { z @0: u8, }\nmod types;\nstruct Y { y @0: u16, }\n'):
+                    files = {"main.fcp": importer, "types.fcp": 'version: "3"\n' + "\n" * pad + decl}
+                    out = front_run.run_front(files, workdir=f"{work}/m{nmod}")
+                    nmod += 1
+                    key = json.dumps(files, sort_keys=True)
+                    chk.count(key, nontrivial=out[0] != "ok", sample={"input": key[:300], "kind": "module-literal", "outcome": out[0]})
+                    chk.hist("kind", "module-literal"); chk.hist("outcome:module-literal", out[0])
+                    if out[0] == "raise":
+                        fails.append({"kind": "exception-escaped", "source": key, "files": files, "input_kind": "module-literal", "exception": out[1][:300]})
+                    elif out[0] == "err":
+                        why = cited_lines_exist(out[1], files)
+                        if why:
+                            fails.append({"kind": "diagnostic-cites-a-line-that-does-not-exist", "source": key, "files": files, "input_kind": "module-literal", "why": why})
+                    try:
+                        cases.append(front_run.case_term(files, "main.fcp", out, oracle)); meta.append(key)
+                    except TypeError:
+                        pass
+    finally:
+        shutil.rmtree(work, ignore_errors=True)
     for _ in range(n):
         items = printer.gen_items(chk.rng)
         toks = printer.tokens(items, chk.rng)
